@@ -111,8 +111,11 @@ def c01_steps(tier, seed):
         native("reg-stress-raise", ["w_reg", "--mode", "stress", "--phase", "raise", "--rounds", rounds, "--round-ms", 100, "--seed", seed + 2000]),
         native("halflock-native", ["w_halflock", "--rounds", 12 if q else 120, "--seed", seed]),
         miri("halflock-miri", "m_halflock", [], 48 if q else 2048, timeout=240 if q else 3000),
+        miri("registry-miri", "m_registry", ["--shape", seed], 16 if q else 512, timeout=400 if q else 3600),
+        native("gate-held-reader", ["w_live", "--mode", "gate", "--trials", 300 if q else 5000, "--seed", seed + 17]),
     ]
     if not q:
+        st += [miri("registry-miri-%d" % sh, "m_registry", ["--shape", seed + sh], 128, timeout=3600) for sh in range(1, 5)]
         st += [
             asan("reg-stress-asan-none", ["w_reg", "--mode", "stress", "--phase", "none", "--rounds", 60, "--round-ms", 100, "--seed", seed + 3000], leaks=False),
             asan("reg-stress-asan-delay", ["w_reg", "--mode", "stress", "--phase", "delay", "--rounds", 60, "--round-ms", 100, "--seed", seed + 4000], leaks=False),
@@ -146,6 +149,7 @@ def c02_steps(tier, seed):
         native("reg-owner-none", ["w_reg", "--mode", "owner", "--phase", "none", "--rounds", rounds, "--seed", seed]),
         native("reg-owner-delay", ["w_reg", "--mode", "owner", "--phase", "delay", "--rounds", rounds, "--seed", seed + 100]),
         native("reg-owner-raise", ["w_reg", "--mode", "owner", "--phase", "raise", "--rounds", rounds, "--seed", seed + 200]),
+        miri("registry-miri", "m_registry", ["--shape", seed + 3], 16 if q else 384, timeout=400 if q else 3600),
     ]
 
 
@@ -199,8 +203,9 @@ PLANS["C06"] = {
 def c07_steps(tier, seed):
     q = tier == "quick"
     st = [
-        miri("chan-miri-a", "m_channel", ["--shape", 2 * seed], 16 if q else 768, timeout=400 if q else 3000),
-        miri("chan-miri-b", "m_channel", ["--shape", 2 * seed + 1], 16 if q else 768, timeout=400 if q else 3000),
+        miri("chan-miri-a", "m_channel", ["--shape", 2 * seed], 32 if q else 768, timeout=400 if q else 3000),
+        miri("chan-miri-b", "m_channel", ["--shape", 2 * seed + 1], 32 if q else 768, timeout=400 if q else 3000),
+        miri("raw-slot-miri", "m_iter", ["--shape", seed], 8 if q else 256, timeout=600 if q else 3600),
         chan("chan-random", "random", 1500 if q else 100000, seed + 1),
         chan("chan-signal", "signal", 1000 if q else 50000, seed + 2),
         chan("chan-nest", "nest", 3000 if q else 100000, seed + 3),
@@ -322,8 +327,8 @@ PLANS["C11"] = {
 
 def c12_steps(tier, seed):
     q = tier == "quick"
-    st = [native("instance-scripts", ["w_instance", "--seed", seed, "--scripts", 400 if q else 6000], timeout=300 if q else 1800),
-          native("instance-all-numbers", ["w_instance", "--seed", seed + 1, "--scripts", 150 if q else 3000, "--all-numbers"], timeout=300 if q else 1800)]
+    st = [native("instance-scripts", ["w_instance", "--seed", seed, "--scripts", 1500 if q else 20000], timeout=300 if q else 1800),
+          native("instance-all-numbers", ["w_instance", "--seed", seed + 1, "--scripts", 600 if q else 10000, "--all-numbers"], timeout=300 if q else 1800)]
     if not q:
         st.append(valgrind("instance-valgrind", ["w_instance", "--seed", seed + 2, "--scripts", 120], timeout=1800))
     return st
@@ -349,7 +354,7 @@ PLANS["C12"] = {
 
 def c13_steps(tier, seed):
     q = tier == "quick"
-    st = [native("pipe-scenarios", ["w_pipe", "--seed", seed, "--cycles", 2000 if q else 50000], timeout=400 if q else 1800)]
+    st = [native("pipe-scenarios", ["w_pipe", "--seed", seed, "--cycles", 10000 if q else 100000], timeout=400 if q else 1800)]
     st.append(strace("pipe-strace", ["w_strace", "--what", "pipe"], oracle="c13"))
     return st
 
@@ -397,7 +402,7 @@ PLANS["C14"] = {
 
 def c15_steps(tier, seed):
     q = tier == "quick"
-    return [native("flag-scripts", ["w_flag", "--seed", seed, "--scripts", 800 if q else 30000], timeout=600 if q else 3000)]
+    return [native("flag-scripts", ["w_flag", "--seed", seed, "--scripts", 4000 if q else 60000], timeout=600 if q else 3000)]
 
 
 PLANS["C15"] = {
@@ -459,7 +464,7 @@ PLANS["C17"] = {
 
 def c04_steps(tier, seed):
     q = tier == "quick"
-    return [native("chain-trials", ["w_chain", "--seed", seed, "--reps", 1 if q else 12], timeout=600 if q else 3000)]
+    return [native("chain-trials", ["w_chain", "--seed", seed, "--reps", 3 if q else 15], timeout=600 if q else 3000)]
 
 
 PLANS["C04"] = {
@@ -486,7 +491,7 @@ PLANS["C04"] = {
 
 def c05_steps(tier, seed):
     q = tier == "quick"
-    return [native("model-histories", ["w_model", "--seed", seed, "--procs", 16, "--ops", 6000 if q else 150000], timeout=600 if q else 3000),
+    return [native("model-histories", ["w_model", "--seed", seed, "--procs", 16, "--ops", 20000 if q else 300000], timeout=600 if q else 3000),
             native("restart-under-fire", ["w_reg", "--mode", "stress", "--phase", "none", "--rounds", 10 if q else 100, "--round-ms", 60, "--seed", seed + 9])]
 
 
@@ -546,7 +551,7 @@ PLANS["C03"] = {
 def c18_steps(tier, seed):
     q = tier == "quick"
     return [
-        native("gate-schedule", ["w_live", "--mode", "gate", "--trials", 600 if q else 20000, "--seed", seed], timeout=900),
+        native("gate-schedule", ["w_live", "--mode", "gate", "--trials", 3000 if q else 60000, "--seed", seed], timeout=900),
         native("free-running", ["w_live", "--mode", "free", "--rounds", 40 if q else 1500, "--round-ms", 50, "--seed", seed], timeout=600 if q else 3000),
     ]
 
